@@ -282,7 +282,7 @@ def run(pr, repo):
     ground(pr, repo)
     tasks = [(task_reader, (t,)) for t in reader.TAGS] + [(task_classify, ()), (task_setup, ()), (task_extract, ()),
                                                            (C02.task_sections, ()), (C08.task_average_twins, ()),
-                                                           (C08.task_average, (2,)), (C14.task_init_group, ())]
+                                                           (C08.task_average, (2,)), (C14.task_init_group, ()), (C14.task_parse, ())]
     pr.parallel(tasks)
     pr.assumptions += ['stutter/simulation rule lifts the per-record automaton to whole files; atom-name classes as listed in '
                        'props/reader.py', 'composition step "nothing else is reported" (bounded census monitor)',
